@@ -31,9 +31,11 @@ STATEMENTS = [
     'map([3], h)', 'map([1, 2], b1)', 'apply(h, 3)', 'apply(b2, 0)', 'swallow(r, 1)', 'swallow_all(r2, 1)', 'swallow(b5, 1)',
     'swallow_all(b6, 1)', 'map([1], r)', 'map([1], r2)', 'swallow(r, 1); len', 'swallow_all(r2, 1); len("abc")', 'y = len', 'y',
     'apply(y => swallow(r, y), 2); len', 'f = 0', 'del_probe = [len]',
+    'w2 = n => 1 if n < 2 else w2(n - 1) * n', 'w2(4)', 'mk = len => (y => len + y)', 'add = mk(1)', 'add(5)', 'mk(2)(3)' if False else 'map([1, 2], mk(3))',
+    'fib = len => len if len < 2 else fib(len - 1) + fib(len - 2)', 'fib(5)', 'map([3], fib)',
     'f(None)', 'len = None', 'h(None)', 'map([None, 3], f)', 'f(0)', 'f(False)', 'f("")', 'len = 0', 'g = None', 'b3(None)',
 ]
-DEEP = ['len', 'len("ab")', 'len = 5', 'len += 1', 'f(1)', 'g(0)', 'h(3)', 'b1(0)', 'b2(0)', 'b3(5)', 'swallow(r, 1); len',
+DEEP = ['w2(4)', 'add(5)', 'fib(5)', 'len', 'len("ab")', 'len = 5', 'len += 1', 'f(1)', 'g(0)', 'h(3)', 'b1(0)', 'b2(0)', 'b3(5)', 'swallow(r, 1); len',
         'swallow_all(r2, 1); len("abc")', 'map([1], g)', 'y']
 
 AST_BODIES = {
@@ -46,7 +48,7 @@ AST_BODIES = {
 }
 
 
-HOST_MODES = ['absent', 'num', 'none']
+HOST_MODES = ['absent', 'num', 'none', 'no-names']
 
 
 class HostFn:
@@ -165,6 +167,7 @@ def run_sequence(res, hist, with_host_len, mode):
     elif with_host_len == 'none':
         rnames['len'] = None
         mnames['len'] = None
+    no_names = with_host_len == 'no-names'
     progs = list(hist) if mode == 'separate' else ['; '.join(hist)]
     fn_ids0 = (id(api.FUNCTIONS), {k: id(v) for k, v in api.FUNCTIONS.items()})
     # ast_names: the model binds closures over the parsed bodies
@@ -177,6 +180,8 @@ def run_sequence(res, hist, with_host_len, mode):
             res.count('unparsable')
             return None
         # model
+        if no_names:
+            mnames = {}         # eval(expr, None): every call gets its own empty host scope
         mach = M.Machine(mnames, known_builtins=list(api.FUNCTIONS))
         for k, c in m_ast.items():
             mnames[k] = c
@@ -197,7 +202,7 @@ def run_sequence(res, hist, with_host_len, mode):
         w = Watch()
         try:
             with opwrap.traced(w):
-                rv = parser().eval(prog, rnames, ast_names=ast_names_real(), max_ops_evaluated=5000)
+                rv = parser().eval(prog, None if no_names else rnames, ast_names=ast_names_real(), max_ops_evaluated=5000)
             rout = ('val', canon_real(rv))
         except api.ParserError:
             rout = ('PErr',)
@@ -215,7 +220,7 @@ def run_sequence(res, hist, with_host_len, mode):
                 res.violation(f'scope-stack:{_kind(prog)}', 'a lambda call scope is still on the scope stack after eval returned or raised',
                               dict(wit, expected='2 scopes (builtins, host names)', observed=f'{depth} scopes'))
                 return None
-            if w.state.names.scopes[1] is not rnames:
+            if not no_names and w.state.names.scopes[1] is not rnames:
                 res.violation(f'host-scope-replaced:{_kind(prog)}', 'the second scope is no longer the host names mapping',
                               dict(wit, expected='host mapping', observed='another object'))
                 return None
@@ -233,7 +238,7 @@ def run_sequence(res, hist, with_host_len, mode):
             return None
         cm = canon_model({k: v for k, v in mnames.items() if not isinstance(v, HostFn) and k not in AST_BODIES})
         cr = canon_real({k: v for k, v in rnames.items() if k not in ('apply', 'swallow', 'swallow_all') and k not in AST_BODIES})
-        if cm != cr:
+        if not no_names and cm != cr:
             res.violation(f'host-names:{_kind(prog)}', 'the host names mapping differs from the scope model after eval (a lambda-local binding '
                           'leaked, or a top-level one was lost)', dict(wit, expected=repr(cm)[:300], observed=repr(cr)[:300]))
             return None
@@ -252,9 +257,64 @@ def _kind(prog):
     return prog[:26]
 
 
+EQUAL_SCOPE = [
+    # the host mapping has exactly the contents of a lambda call scope
+    ({'v': 2}, 'map([2], v => v); y = 5'), ({'v': 2}, 'map([2], v => v + 1); v = 3; v'), ({'v': 2}, 'sorted([2], v => v); y = 1; y'),
+    ({'v': 2}, 'filter([2, 2], v => v); v'), ({'a': 1, 'b': 2}, 'reduce([1, 2], (a, b) => a + b); c = 3; c'),
+    ({'v': 2}, 'f = v => v; v'), ({'k': 'x', 'v': 1}, 'map({"x": 1}, (k, v) => v); z = 0; [k, v, z]'), ({}, 'map([1], () => 1) if False else 0; q = 1; q'),
+]
+
+
+def equal_scope_cases(res):
+    api = snapshot.api()
+    for spec, prog in EQUAL_SCOPE:
+        for mode in ('one', 'separate'):
+            rn = {k: (api.Decimal(v) if isinstance(v, int) else v) for k, v in spec.items()}
+            mn = {k: (M.Num.of_int(v) if isinstance(v, int) else v) for k, v in spec.items()}
+            progs = [prog] if mode == 'one' else prog.split('; ')
+            for pg in progs:
+                tree = refparse.parse(pg)
+                if tree[0] != 'ok':
+                    continue
+                try:
+                    mout = ('val', canon_model(M.Machine(mn, known_builtins=list(api.FUNCTIONS)).run(tree[1])))
+                except M.Undefined:
+                    mout = None
+                except M.PErr:
+                    mout = ('PErr',)
+                except M.OtherErr:
+                    mout = ('OtherErr',)
+                w = Watch()
+                try:
+                    with opwrap.traced(w):
+                        rout = ('val', canon_real(parser().eval(pg, rn)))
+                except api.ParserError:
+                    rout = ('PErr',)
+                except Exception:  # noqa
+                    rout = ('OtherErr',)
+                res.count('evals')
+                wit = {'history': progs, 'mode': mode, 'host_binds_len': 'n/a', 'program': pg, 'host_names': repr(spec)}
+                if w.state is not None and (len(w.state.names.scopes) != 2 or w.state.names.scopes[1] is not rn):
+                    res.violation('scope-stack:equal-scope', 'after eval the scope stack is not [builtins, host names] (host mapping equal '
+                                  'to a lambda call scope)', dict(wit, expected='[builtins, host mapping]', observed=f'{len(w.state.names.scopes)} scopes'))
+                    break
+                if mout is not None and mout != rout:
+                    res.violation('result:equal-scope', 'result differs from the scope model', dict(wit, expected=repr(mout), observed=repr(rout)))
+                    break
+                if mout is not None and canon_model(mn) != canon_real({k: v for k, v in rn.items() if not callable(v)}) and \
+                        canon_model({k: v for k, v in mn.items() if not isinstance(v, M.Closure)}) != canon_real({k: v for k, v in rn.items() if not callable(v)}):
+                    res.violation('host-names:equal-scope', 'host names differ from the scope model',
+                                  dict(wit, expected=repr(canon_model({k: v for k, v in mn.items() if not isinstance(v, M.Closure)})),
+                                       observed=repr(canon_real({k: v for k, v in rn.items() if not callable(v)}))))
+                    break
+
+
 def work(task):
     res = runner.Result()
     opwrap.install()
+    if task[0] == 'equal-scope':
+        equal_scope_cases(res)
+        return res
     hists, deep, host_len = task
     stmts = DEEP if deep else STATEMENTS
     for hist in hists:
@@ -284,6 +344,8 @@ def main(tier, seed, t0):
             hs = [h for x, h in frontier if x == hl]
             n = max(1, len(hs) // 32 + 1)
             tasks += [(hs[i:i + n], depth > b['DEPTH'], hl) for i in range(0, len(hs), n)]
+        if depth == 1:
+            tasks.append(('equal-scope',))
         r = runner.run_tasks(work, runner.rotate(tasks, seed), selftest=(depth == 1))
         new = []
         for hl, st, hist in sorted(r.bag, key=lambda x: (x[0], x[2])):
@@ -304,7 +366,7 @@ def main(tier, seed, t0):
         'distinct_nontrivial': len(total.outcomes),
         'rule': 'BFS to depth %d over %d statements about the one name `len` (builtin key / host binding / assignment target / lambda '
                 'parameter / local of host-built bodies), then %d of them to depth %d; every sequence as separate evals over one names '
-                'mapping and as one program, with `len` unbound / bound to a number / bound to None by the host; states deduplicated on the model\'s host names '
+                'mapping and as one program, with `len` unbound / bound to a number / bound to None by the host / eval called with names=None; 8 scenarios where the host mapping equals a lambda call scope; states deduplicated on the model\'s host names '
                 '(closures by body). undefined_by_model=%d. distinct_nontrivial = distinct (statement, outcome class).'
                 % (b['DEPTH'], len(STATEMENTS), len(DEEP), b['DEEP'], n.get('undefined_by_model', 0)),
         'exhaustive': True,
